@@ -43,6 +43,16 @@ impl Timed {
     }
 }
 
+/// Messages with an id the client does not know (it skips them): BEP 10 extended (id 20, what idle
+/// connections of today's clients mostly carry: peer exchange) and BEP 5 port (id 9).
+fn sym_raw(sym: &str) -> Option<Vec<u8>> {
+    match sym {
+        "Extended" => Some(vec![0, 0, 0, 3, 20, 1, b'd']),
+        "Port" => Some(vec![0, 0, 0, 3, 9, 0x1a, 0xe1]),
+        _ => None,
+    }
+}
+
 fn sym_msg(sym: &str) -> Option<Msg> {
     match sym {
         "KeepAlive" => Some(Msg::KeepAlive),
@@ -102,6 +112,8 @@ impl Scenario for Timed {
             evs.push(Ev::Rotate);
         } else if sym == "Handshake" {
             evs.push(Ev::Feed(0, refwire::encode(&refwire::handshake(_w.t.meta.info_hash(), &_w.peers[0].cfg.id))));
+        } else if let Some(raw) = sym_raw(sym) {
+            evs.push(Ev::Feed(0, raw));
         } else if let Some(m) = sym_msg(sym) {
             evs.push(Ev::Feed(0, refwire::encode(&m)));
         }
@@ -125,7 +137,7 @@ impl Scenario for Timed {
                 let live = mon.last_live_ms > idx * 120_000 && mon.last_live_ms <= (idx + 1) * 120_000;
                 mon.live_in_interval.push(live);
             }
-            if sym_msg(sym).map(|m| m != Msg::KeepAlive).unwrap_or(false) && !p.ended.get() {
+            if (sym_raw(sym).is_some() || sym_msg(sym).map(|m| m != Msg::KeepAlive).unwrap_or(false)) && !p.ended.get() {
                 if p.pipe.pending() > 0 {
                     mon.deferred_live = true;
                 } else {
@@ -332,6 +344,8 @@ impl Scenario for Duo {
 pub fn scenarios(thorough: bool) -> Vec<Timed> {
     if thorough {
         vec![
+            Timed { slots: vec![30, 90], symbols: vec!["nothing", "KeepAlive", "Extended", "Port", "Have"], intervals: 8, handshaken: true, outgoing: true },
+            Timed { slots: vec![60], symbols: vec!["nothing", "KeepAlive", "Extended", "Handshake"], intervals: 7, handshaken: false, outgoing: false },
             Timed { slots: vec![30, 60, 90], symbols: vec!["nothing", "KeepAlive", "Have", "Choke", "Unchoke", "Request", "Interested"], intervals: 16, handshaken: true, outgoing: true },
             Timed { slots: vec![1, 119], symbols: vec!["nothing", "KeepAlive", "Have", "Interested", "Choke", "Unchoke"], intervals: 12, handshaken: true, outgoing: true },
             Timed { slots: vec![5, 15, 25, 115], symbols: vec!["nothing", "KeepAlive", "Have"], intervals: 8, handshaken: true, outgoing: true },
@@ -346,6 +360,8 @@ pub fn scenarios(thorough: bool) -> Vec<Timed> {
         ]
     } else {
         vec![
+            // messages of kinds the client does not know are messages too
+            Timed { slots: vec![60], symbols: vec!["nothing", "KeepAlive", "Extended", "Port", "Have"], intervals: 6, handshaken: true, outgoing: true },
             Timed { slots: vec![30, 60, 90], symbols: vec!["nothing", "KeepAlive", "Have", "Choke", "Unchoke", "Request"], intervals: 6, handshaken: true, outgoing: true },
             Timed { slots: vec![1, 119], symbols: vec!["nothing", "KeepAlive", "Have", "Interested"], intervals: 6, handshaken: true, outgoing: true },
             // peers that connect (or are connected to) and stay silent, or handshake late
@@ -359,6 +375,40 @@ pub fn scenarios(thorough: bool) -> Vec<Timed> {
             Timed { slots: vec![60], symbols: vec!["nothing", "KeepAlive", "Choke", "Unchoke", "Interested", "NotInterested", "Have", "Bitfield", "Request", "Piece", "Cancel"], intervals: 4, handshaken: true, outgoing: true },
         ]
     }
+}
+
+/// The inactivity close falls into a moment in which the manager is busy and its command queue is
+/// full (the rest of a big swarm reported statistics): `busy_from` .. `busy_to` in ms. The silent
+/// connection (it holds a reservation) must be closed, forgotten and its piece released once the
+/// manager is back -- the task's last words must not get lost.
+pub fn full_queue_close_case(dir: &std::path::PathBuf, busy_from: u64, busy_to: u64, verbose: bool) -> Option<(&'static str, String)> {
+    let t = Torrent::new("t", 16384, &[("f", 16384 * 2)], true);
+    let mut w = World::new(&WorldCfg { torrent: t.clone(), have: vec![], peers: vec![peer_cfg(0, true)], gated: false, stale: vec![] }, dir);
+    w.add_mgr_peer();
+    let id = w.peers[0].cfg.id;
+    w.feed(0, &[refwire::handshake(t.meta.info_hash(), &id), Msg::Bitfield(vec![0xc0]), Msg::Unchoke]);
+    w.step(&Ev::AdvanceTo(busy_from), &[]);
+    w.step(&Ev::PauseManager, &[]);
+    w.step(&Ev::FillQueue, &[]);
+    if w.queue_filled == 0 {
+        return Some(("MACHINERY", "the queue could not be filled".to_string()));
+    }
+    w.step(&Ev::AdvanceTo(busy_to), &[]);
+    w.step(&Ev::ResumeManager, &[]);
+    w.step(&Ev::AdvanceTo(busy_to.max(360_000) + 1_000), &[]);
+    let snap = w.snap();
+    let listed = snap.peers.iter().any(|x| x.addr == w.peers[0].cfg.addr);
+    let ended = w.peers[0].ended.get();
+    if verbose {
+        println!("busy {}..{} ms: task ended={} listed={} statuses={:?} handled at the end: {:?}", busy_from, busy_to, ended, listed, snap.statuses, w.cmds);
+    }
+    if let Some(d) = &w.dead {
+        return Some(("manager-died", d.clone()));
+    }
+    if !ended || listed || snap.statuses.iter().any(|x| matches!(x, rdest::verif::Status::Reserved(_))) {
+        return Some(("silent-peer-not-dropped", format!("silent since t=0; the manager was busy with a full command queue from {} s to {} s; at {} s: connection task ended={}, manager still lists the peer={}, statuses {:?}", busy_from / 1000, busy_to / 1000, busy_to.max(360_000) / 1000 + 1, ended, listed, snap.statuses)));
+    }
+    None
 }
 
 pub fn run(ctx: &Ctx) -> Outcome {
@@ -377,10 +427,27 @@ pub fn run(ctx: &Ctx) -> Outcome {
         per.push(json!({"scenario": Scenario::name(&d), "states": st.states, "transitions": st.transitions, "depth_completed": st.depth_completed}));
         total.merge(&st);
     }
+    // the close itself while the manager's queue is full
+    {
+        let dir = core::private_cwd("c20", "fullq");
+        let mut rows = vec![];
+        for (from, to) in [(355_000u64, 365_000u64), (359_000, 361_000), (350_000, 420_000), (235_000, 245_000), (115_000, 125_000)] {
+            let v = full_queue_close_case(&dir, from, to, false);
+            rows.push(json!({"busy_from_ms": from, "busy_to_ms": to, "ok": v.is_none()}));
+            if let Some((class, why)) = v {
+                if class == "MACHINERY" {
+                    ctx.machinery_error(why);
+                } else {
+                    ctx.violation(class, why, json!({"scenario": "fullq", "from": from, "to": to, "history": []}));
+                }
+            }
+        }
+        per.push(json!({"scenario": "inactivity close while the manager's queue is full", "cases": rows}));
+    }
     let mut o = Outcome::new("model_checking");
     explore::stats_outcome(&total, &mut o);
     o.set("scenarios", Value::Array(per));
-    o.set("rule", json!("each 120 s keep-alive interval is cut at the listed slot offsets; an event = advance the paused clock to the next slot, then feed one symbol of the alphabet (or nothing); BFS over all scripts for the stated number of intervals; states are merged when manager snapshot, connection-task snapshot (keep-alive counter, flags, reservation, byte counters), slot number and the monitor's summary agree, so the number of timed scripts covered (symbols^slots) is far larger than the number of states. duo-* scenarios: two connections asked for the same pieces (end game); A sends at most keep-alives, B answers its outstanding request (completing a piece, which cancels and re-assigns A) or sends another live message, at two slots per interval; A must be gone 360 s after its last live message whatever B does."));
+    o.set("rule", json!("each 120 s keep-alive interval is cut at the listed slot offsets; an event = advance the paused clock to the next slot, then feed one symbol of the alphabet (or nothing); BFS over all scripts for the stated number of intervals; states are merged when manager snapshot, connection-task snapshot (keep-alive counter, flags, reservation, byte counters), slot number and the monitor's summary agree, so the number of timed scripts covered (symbols^slots) is far larger than the number of states. duo-* scenarios: two connections asked for the same pieces (end game); A sends at most keep-alives, B answers its outstanding request (completing a piece, which cancels and re-assigns A) or sends another live message, at two slots per interval; A must be gone 360 s after its last live message whatever B does. Plus five scripted cases in which the manager is busy with a FULL command queue (64 statistics reports of a manager-only peer) around a keep-alive tick of a silent connection that holds a reservation (355..365 s, 359..361 s, 350..420 s, 235..245 s, 115..125 s): once the manager is back the connection must be closed, forgotten and its piece released."));
     o.assume("the connection holds a reservation (handshake, bitfield, unchoke are fed at t=0) except in the -nohs scenarios, where the peer is silent from the start or handshakes at some slot (outgoing and incoming connections); messages arrive at slot times only, i.e. at fixed offsets from the 120 s timer; slots at +1 s and +119 s probe both sides of each tick");
     o.assume("merging states by (real state, slot, which interval the last live message fell into) is sound for the oracle because (a)-(c) only read those");
     o
@@ -388,6 +455,19 @@ pub fn run(ctx: &Ctx) -> Outcome {
 
 pub fn replay(_ctx: &Ctx, r: &Value) -> i32 {
     let name = r["scenario"].as_str().unwrap();
+    if name == "fullq" {
+        let dir = core::private_cwd("c20", "replay");
+        return match full_queue_close_case(&dir, r["from"].as_u64().unwrap(), r["to"].as_u64().unwrap(), true) {
+            Some((class, why)) => {
+                println!("VIOLATION property=C20 replay=<this file>\n  class={} {}", class, why);
+                1
+            }
+            None => {
+                println!("holds for this case");
+                0
+            }
+        };
+    }
     if let Some(rest) = name.strip_prefix("duo-") {
         let pieces: usize = rest.split("pieces-").next().unwrap().parse().unwrap();
         let intervals: u64 = rest.split("pieces-").nth(1).unwrap().parse().unwrap();
